@@ -209,6 +209,18 @@ def featureide(pm: ProgramModel, ctx: Ctx, mb: ModelBuilder) -> None:
               "C09-UNSUPPORTED", "fide-unknown-rule", where, "an unknown rule tag is reported as a library error",
               bad=f"unknown FeatureIDE rule tag: {r['raise'][0] if r['raise'] else 'a model is returned'} "
                   f"(expected a FlamaException)")
+    # an element the library cannot represent (attributes of the extended FeatureIDE format): an error, not a feature
+    doc = ('<featureModel><struct><and name="R"><feature name="A"><attribute name="cost" type="long" value="3"/></feature>'
+           '<attribute name="weight" type="long" value="1"/><feature name="B"/></and></struct></featureModel>')
+    r = read(pm, "FeatureIDEReader", doc.encode("utf8"))
+    rootx = mb.feature("R")
+    mb.relation(rootx, [mb.feature("A")], 0, 1)
+    mb.relation(rootx, [mb.feature("B")], 0, 1)
+    if r["raise"] and r["raise"][0].startswith(("FlamaException", "ParsingException")):
+        ctx.ok("C09-UNSUPPORTED", "fide-extended-attribute", where, "an <attribute> element is reported as a library error")
+    else:
+        compare(ctx, "C09-UNSUPPORTED", "fide-extended-attribute", where, r, mb.model(rootx, []),
+                "FeatureIDE document with <attribute> elements of the extended format (either an error or the plain model)")
     ctx.analysed["C09:fide-variants"] = n
 
 
@@ -360,6 +372,14 @@ def glencoe(pm: ProgramModel, ctx: Ctx, mb: ModelBuilder) -> None:
         r = read(pm, "GlencoeReader", json.dumps(glencoe_doc(ref, note)))
         compare(ctx, "C09-GLENCOE", f"variant:note={note}", where, r, ref, "Glencoe document with ids distinct from names",
                 names=True)
+    # a document without the "constraints" section denotes a model without constraints
+    ref_nc = ref_model(mb)
+    ref_nc._f["ctcs"] = []
+    doc_nc = glencoe_doc(ref_nc, ctcs=False)
+    del doc_nc["constraints"]
+    r = read(pm, "GlencoeReader", json.dumps(doc_nc))
+    compare(ctx, "C09-GLENCOE", "no-constraints-section", where, r, ref_nc, "Glencoe document without a constraints section",
+            names=True)
     # GENOR min/max as written; mandatory child inside a group feature
     root = mb.feature("R")
     g = mb.feature("G")
